@@ -128,6 +128,7 @@ fn run_c15(c: &C15Case, w: &WCtx) -> Result<Report, Failure> {
                 kt: c.build.maps[0].kt,
                 params: c.params,
                 keys: c.build.maps[0].keys.clone(),
+                late: false,
             }],
             ops: c.reads.clone(),
             obs: Obs::default(),
